@@ -186,7 +186,42 @@ func genHostileExpr(t *rapid.T, depth int) (interface{}, string) {
 }
 
 func genChainOp(t *rapid.T, healthyPossible bool) chainOp {
-	switch rapid.IntRange(0, 30).Draw(t, "op") {
+	switch rapid.IntRange(0, 32).Draw(t, "op") {
+	case 32:
+		// constants of Go types the expression language does not have (only int, float64, bool, string/*string are
+		// constants): an unsupported argument type wherever it stands, never a silently converted value
+		k := rapid.IntRange(0, 11).Draw(t, "oddconst")
+		odd := []interface{}{int64(7), int32(1), int16(2), int8(3), uint(3), uint64(math.MaxUint64), uint32(4), uint16(5), uint8(6), float32(1.5), int64(math.MinInt64), uintptr(9)}[k]
+		form := rapid.IntRange(0, 3).Draw(t, "oddform")
+		col := validName(t, "oddcol")
+		return chainOp{desc: fmt.Sprintf("Eval with a %T constant (form %d, column %s)", odd, form, col), mustErr: true, run: func(qf qframe.QFrame) qframe.QFrame {
+			switch form {
+			case 0:
+				return qf.Eval("n1", qframe.Val(odd))
+			case 1:
+				return qf.Eval("n1", qframe.Expr("+", types.ColumnName(col), odd))
+			case 2:
+				return qf.Eval("n1", qframe.Expr("+", odd, types.ColumnName(col)))
+			}
+			return qf.Eval("n1", qframe.Expr("abs", qframe.Expr("+", odd, odd)))
+		}}
+	case 31:
+		// a constant as Fn fills a column and takes no source column: with one or two sources named (known or not) the
+		// instruction is malformed - the constant is no function of one or two arguments
+		k := rapid.IntRange(0, 4).Draw(t, "constfn")
+		s := "x"
+		fn := []interface{}{5, 1.5, true, &s, types.ColumnName("i1")}[k]
+		src1 := rapid.SampledFrom([]string{"i1", "f1", "s1", "never-created-col"}).Draw(t, "constsrc1")
+		src2 := rapid.SampledFrom([]string{"", "", "i2", "never-created-col"}).Draw(t, "constsrc2")
+		filtered := rapid.IntRange(0, 3).Draw(t, "constfiltered") == 0
+		return chainOp{desc: fmt.Sprintf("Apply(Instruction{Fn: %T constant, SrcCol1: %q, SrcCol2: %q}) filtered=%v", fn, src1, src2, filtered), mustErr: true, filteredApply: filtered,
+			run: func(qf qframe.QFrame) qframe.QFrame {
+				in := qframe.Instruction{Fn: fn, DstCol: "n1", SrcCol1: src1, SrcCol2: src2}
+				if filtered {
+					return qf.FilteredApply(qframe.Filter{Column: "i1", Comparator: ">", Arg: 0}, in)
+				}
+				return qf.Apply(in)
+			}}
 	case 30:
 		// one Apply/FilteredApply call: after its first instruction failed, the later ones run no callback and the first
 		// error is the one reported
